@@ -3,7 +3,7 @@
 //! receiver.  Every result is compared with the ideal sequence; afterwards the remaining items are
 //! drained and compared, and for the `Mut` variants every reference that was yielded is written
 //! through and the whole root compared.
-use crate::acc::{descend_owned, descend_v, descend_vm, parse_stack, u32s, window_of, Leaf, Plain};
+use crate::acc::{descend_owned, descend_toodee, descend_v, descend_vm, parse_stack, u32s, window_of, Leaf, Plain};
 use crate::canary;
 use crate::cells::CellT;
 use crate::fault;
@@ -166,6 +166,65 @@ fn drive<T: CellT, I>(
                     kept.extend(items);
                     json!({"k": "fold", "n": cnt, "v": ids})
                 }
+                "for_each" | "rev_for_each" => {
+                    let i = it.take().unwrap();
+                    let mut items: Vec<I::Item> = Vec::new();
+                    if op == "for_each" { i.for_each(|x| items.push(x)) } else { i.rev().for_each(|x| items.push(x)) };
+                    let mut ids: Vec<u32> = Vec::new();
+                    let cnt = items.len();
+                    for x in &items {
+                        ids.extend(x.ids());
+                    }
+                    kept.extend(items);
+                    json!({"k": "fold", "n": cnt, "v": ids})
+                }
+                // the predicate / closure stops at its (n+1)-th invocation: no dependence on the items themselves
+                "find" | "rfind" => {
+                    let target = n.checked_add(1);
+                    let mut k = 0usize;
+                    let i = it.as_mut().unwrap();
+                    let p = |_: &I::Item| {
+                        k += 1;
+                        Some(k) == target
+                    };
+                    let r = if op == "find" { i.find(p) } else { i.rfind(p) };
+                    let v = item_res::<T, _>(&r);
+                    kept.extend(r);
+                    v
+                }
+                "try_fold" | "try_rfold" => {
+                    let target = n.checked_add(1);
+                    let mut k = 0usize;
+                    let mut found: Option<I::Item> = None;
+                    let i = it.as_mut().unwrap();
+                    let f = |(): (), x: I::Item| -> Option<()> {
+                        k += 1;
+                        if Some(k) == target {
+                            found = Some(x);
+                            None
+                        } else {
+                            Some(())
+                        }
+                    };
+                    let _ = if op == "try_fold" { i.try_fold((), f) } else { i.try_rfold((), f) };
+                    let v = item_res::<T, _>(&found);
+                    kept.extend(found);
+                    v
+                }
+                "position" | "rposition" => {
+                    let target = n.checked_add(1);
+                    let mut k = 0usize;
+                    let i = it.as_mut().unwrap();
+                    let p = |_: I::Item| {
+                        k += 1;
+                        Some(k) == target
+                    };
+                    let r = if op == "position" { i.position(p) } else { i.rposition(p) };
+                    match r {
+                        Some(ix) => json!({"k": "val", "v": ix}),
+                        None => json!({"k": "none"}),
+                    }
+                }
                 "index" => {
                     let f = index.expect("harness: index on a non-column iterator");
                     json!({"k": "some", "v": f(it.as_ref().unwrap(), n)})
@@ -241,30 +300,45 @@ fn drive<T: CellT, I>(
     }
 }
 
-fn ro_kinds<T: CellT, R: TooDeeOps<T>>(run: &mut Run<'_>, recv: &R, t: &str, c: usize, case: &Value) -> bool {
-    match t {
-        "rows" => drive::<T, _>(run, recv.rows(), None, Some(&|i| i.num_cols()), case),
-        "col" => drive::<T, _>(run, recv.col(c), Some(&|i, n| i[n].origin()), None, case),
-        "cells" => drive::<T, _>(run, recv.cells(), None, Some(&|i| i.num_cols()), case),
-        _ => return false,
-    }
-    true
+// One compiled copy per concrete receiver type (method-call syntax resolves as in user code: an inherent method of
+// that name wins over the trait method), plus the generic form for third-party implementors.
+macro_rules! def_kinds {
+    ($ro:ident, $rw:ident, [$($gen:tt)*], $R:ty) => {
+        #[allow(clippy::needless_lifetimes)]
+        fn $ro<$($gen)* T: CellT>(run: &mut Run<'_>, recv: &$R, t: &str, c: usize, case: &Value) -> bool {
+            match t {
+                "rows" => drive::<T, _>(run, recv.rows(), None, Some(&|i| i.num_cols()), case),
+                "col" => drive::<T, _>(run, recv.col(c), Some(&|i, n| i[n].origin()), None, case),
+                "cells" => drive::<T, _>(run, recv.cells(), None, Some(&|i| i.num_cols()), case),
+                _ => return false,
+            }
+            true
+        }
+        def_kinds!(@rw $rw, [$($gen)*], $R);
+    };
+    (@rw none, [$($gen:tt)*], $R:ty) => {};
+    (@rw $rw:ident, [$($gen:tt)*], $R:ty) => {
+        #[allow(clippy::needless_lifetimes)]
+        fn $rw<$($gen)* T: CellT>(run: &mut Run<'_>, recv: &mut $R, t: &str, c: usize, case: &Value) -> bool {
+            match t {
+                "rows_mut" => drive::<T, _>(run, recv.rows_mut(), None, Some(&|i| i.num_cols()), case),
+                "col_mut" => drive::<T, _>(run, recv.col_mut(c), Some(&|i, n| i[n].origin()), None, case),
+                "cells_mut" => drive::<T, _>(run, recv.cells_mut(), None, Some(&|i| i.num_cols()), case),
+                _ => return false,
+            }
+            true
+        }
+    };
 }
-
-fn rw_kinds<T: CellT, R: TooDeeOpsMut<T>>(run: &mut Run<'_>, recv: &mut R, t: &str, c: usize, case: &Value) -> bool {
-    match t {
-        "rows_mut" => drive::<T, _>(run, recv.rows_mut(), None, Some(&|i| i.num_cols()), case),
-        "col_mut" => drive::<T, _>(run, recv.col_mut(c), Some(&|i, n| i[n].origin()), None, case),
-        "cells_mut" => drive::<T, _>(run, recv.cells_mut(), None, Some(&|i| i.num_cols()), case),
-        _ => return false,
-    }
-    true
-}
+def_kinds!(ro_kinds, rw_kinds, [R: TooDeeOpsMut<T>,], R);
+def_kinds!(ro_kinds_owned, rw_kinds_owned, [], TooDee<T>);
+def_kinds!(ro_kinds_vm, rw_kinds_vm, ['v,], TooDeeViewMut<'v, T>);
+def_kinds!(ro_kinds_view, none, ['v,], TooDeeView<'v, T>);
 
 fn on_leaf<T: CellT>(run: &mut Run<'_>, leaf: Leaf<'_, T>, t: &str, c: usize, case: &Value) {
     match leaf {
         Leaf::Owned(a) => {
-            if ro_kinds::<T, _>(run, &*a, t, c, case) || rw_kinds::<T, _>(run, &mut *a, t, c, case) {
+            if ro_kinds_owned::<T>(run, &*a, t, c, case) || rw_kinds_owned::<T>(run, &mut *a, t, c, case) {
                 return;
             }
             match t {
@@ -274,7 +348,7 @@ fn on_leaf<T: CellT>(run: &mut Run<'_>, leaf: Leaf<'_, T>, t: &str, c: usize, ca
             }
         }
         Leaf::Plain(a) => {
-            if ro_kinds::<T, _>(run, &*a, t, c, case) || rw_kinds::<T, _>(run, &mut *a, t, c, case) {
+            if ro_kinds::<_, T>(run, &*a, t, c, case) || rw_kinds::<_, T>(run, &mut *a, t, c, case) {
                 return;
             }
             // the IntoIterator forms exist only for the library's own types: use cells()/cells_mut()
@@ -285,7 +359,7 @@ fn on_leaf<T: CellT>(run: &mut Run<'_>, leaf: Leaf<'_, T>, t: &str, c: usize, ca
             }
         }
         Leaf::VM(mut v) => {
-            if ro_kinds::<T, _>(run, &v, t, c, case) || rw_kinds::<T, _>(run, &mut v, t, c, case) {
+            if ro_kinds_vm::<T>(run, &v, t, c, case) || rw_kinds_vm::<T>(run, &mut v, t, c, case) {
                 return;
             }
             match t {
@@ -295,7 +369,7 @@ fn on_leaf<T: CellT>(run: &mut Run<'_>, leaf: Leaf<'_, T>, t: &str, c: usize, ca
             }
         }
         Leaf::V(v) => {
-            if ro_kinds::<T, _>(run, &v, t, c, case) {
+            if ro_kinds_view::<T>(run, &v, t, c, case) {
                 return;
             }
             match t {
@@ -364,7 +438,7 @@ fn run_variant<T: CellT>(case: &Value, variant: usize, log: &mut Vec<Value>) -> 
         let mut body = |leaf: Leaf<'_, T>| on_leaf::<T>(&mut run, leaf, &t, c, case);
         match &mut rootobj {
             RootObj::Owned(a) => {
-                if stack.is_empty() { body(Leaf::Owned(a)) } else { descend_owned::<T, _>(a, &stack, &mut body) }
+                if stack.is_empty() { body(Leaf::Owned(a)) } else { descend_toodee::<T>(a, &stack, &mut body) }
             }
             RootObj::Plain(a) => {
                 if stack.is_empty() { body(Leaf::Plain(a)) } else { descend_owned::<T, _>(a, &stack, &mut body) }
@@ -399,7 +473,7 @@ fn run_variant<T: CellT>(case: &Value, variant: usize, log: &mut Vec<Value>) -> 
         let calls_obs: Vec<Value> = calls.iter().zip(obs.iter()).map(|(c, r)| json!({"op": c["op"], "a": c["a"], "res": r})).collect();
         let (rl, rn, rids) = obs_remaining.unwrap_or((0, 0, Vec::new()));
         log.push(json!({"ev": "iter", "nc": nc, "nr": nr, "ids": ids, "stack": case["stack"], "kind": case["kind"], "calls": calls_obs,
-                        "complete": calls_obs.len() == calls.len(), "consumed": rn == 0 && rl == 0 && rids.is_empty() && calls_obs.last().map(|c| matches!(c["op"].as_str(), Some("count") | Some("last") | Some("fold") | Some("rfold"))).unwrap_or(false),
+                        "complete": calls_obs.len() == calls.len(), "consumed": rn == 0 && rl == 0 && rids.is_empty() && calls_obs.last().map(|c| matches!(c["op"].as_str(), Some("count") | Some("last") | Some("fold") | Some("rfold") | Some("for_each") | Some("rev_for_each"))).unwrap_or(false),
                         "rem_len": rl.min(1 << 20), "rem_n": rn.min(1 << 20), "remaining": rids, "final_root": root_now,
                         "built": built.is_ok()}));
     }
